@@ -154,6 +154,8 @@ func richGenesis(cdc codec.JSONCodec, gs app.GenesisState, rich int64) {
 	}
 	gs[superfluidtypes.ModuleName] = cdc.MustMarshalJSON(&sfg)
 
+	govGenesis(cdc, gs)
+
 	var sag smartaccounttypes.GenesisState
 	cdc.MustUnmarshalJSON(gs[smartaccounttypes.ModuleName], &sag)
 	sag.Params.IsSmartAccountActive = true
@@ -165,6 +167,9 @@ func richGenesis(cdc codec.JSONCodec, gs app.GenesisState, rich int64) {
 // administrator (account 0) for administrator-only messages, except that every
 // tenth comes from somebody else and must be refused.
 func (v *view) richSender(st simcore.Step) (int, bool) {
+	if s, ok := v.govSender(st); ok {
+		return s, true
+	}
 	n := len(v.w.g.Accts)
 	plain := int(st.Arg(0)) % n
 	switch st.Op {
@@ -424,7 +429,7 @@ func (v *view) buildRich(st simcore.Step, sender int) []sdk.Msg {
 		}
 		return one(&smartaccounttypes.MsgRemoveAuthenticator{Sender: me, Id: id})
 	}
-	return nil
+	return v.buildGov(st, sender)
 }
 
 var _ = fmt.Sprintf
